@@ -1,9 +1,11 @@
 #!/bin/bash
 # regenerate _CoqProject (all .v files of the development) and the Makefile
 cd "$(dirname "$(readlink -f "$0")")" || exit 2
+# the generated definitions (second tie): translated from /repo's working tree
+/venv/bin/python ../vcheck/py2coq.py "${VCHECK_REPO:-/repo}/src/fast_ticc" Gen > /dev/null || python3 ../vcheck/py2coq.py "${VCHECK_REPO:-/repo}/src/fast_ticc" Gen > /dev/null
 {
   echo "-Q . Ticc"
   echo "-arg -w -arg -deprecated-hint-without-locality,-deprecated-instance-without-locality,-notation-overridden"
-  find Model Proofs Properties Corr -name '*.v' | sort | grep -v -x -F -f WIP
+  find Gen Model Proofs Properties Corr -name '*.v' | sort | grep -v -x -F -f WIP
 } > _CoqProject
 coq_makefile -f _CoqProject -o Makefile > /dev/null
